@@ -14,6 +14,7 @@ inspect/linecache/tokenize.  Stubs: event-loop clock + selector (SimLoop), threa
 import ast
 import asyncio
 import contextvars
+import dataclasses
 import hashlib
 import json
 import os
@@ -457,6 +458,17 @@ def free_names(node, bound=frozenset()):
     return out
 
 
+def describe_type(t):
+    "What can be observed of an item type: its repr, and for a (generated) dataclass its fields."
+    d = repr(t)
+    if dataclasses.is_dataclass(t):
+        d += "{" + ",".join(f"{f.name}:{f.type!r}" for f in dataclasses.fields(t)) + "}"
+    for a in getattr(t, "__args__", ()) or ():
+        if dataclasses.is_dataclass(a):
+            d += "[" + describe_type(a) + "]"
+    return d
+
+
 def chain_lambdas(a):
     "Lambdas of the Select/Where/SelectMany stages along the args[0] spine, top to root."
     out = []
@@ -676,7 +688,7 @@ class Forest:
 
     # -- model -------------------------------------------------------------------------------
     def snap_of(self, stream):
-        return ast.dump(stream.query_ast), repr(stream.item_type)
+        return ast.dump(stream.query_ast), describe_type(stream.item_type)
 
     def add_stream(self, stream, root, parent, made_by, twin=None, md=None, lam_rec=None):
         m = SModel()
